@@ -47,7 +47,13 @@ type runner struct {
 	deadline time.Duration
 	n        int
 	nta      int
+	// hangs: renewal scenarios that ended in a hang (each costs a full call deadline); after maxHangs of
+	// them the remaining renewal scenarios are not executed (the violations are already reported) so
+	// that a tree on which every renewal hangs cannot exhaust the check's time budget
+	hangs int
 }
+
+const maxHangs = 60
 
 // width is the largest number of consumer calls in flight at once in an event trace; the model's
 // state set grows like 5^width (every interleaving of their statements), so wide traces are judged by
@@ -165,8 +171,18 @@ func canonical(sc RScenario) RScenario {
 }
 
 func (r *runner) doRenew(sc NScenario, label string) {
+	if r.hangs >= maxHangs && label != "replay" {
+		r.res.Hit("renew:not-executed-after-" + fmt.Sprint(maxHangs) + "-hanging-scenarios")
+		return
+	}
 	work := filepath.Join(r.f.Work, fmt.Sprintf("c19-renew-%d", r.res.Evaluations))
 	o := runRenew(sc, r.ca, work, 5*time.Second, r.deadline)
+	if o.Hang != "" {
+		r.hangs++
+		if r.hangs == maxHangs {
+			r.res.Note(fmt.Sprintf("%d renewal scenarios ended in a hang (reported as violations); the remaining renewal scenarios are not executed", maxHangs))
+		}
+	}
 	c := Case{Kind: "renew", Renew: &sc}
 	for _, v := range monitorRenew(sc, o, r.res.Hit) {
 		r.res.Violate(v.ID, v.What, c)
